@@ -182,6 +182,11 @@ def Grid.span (g : Grid) (q : Quad) : Option Span := do
   let mx := q.center.add q.extents
   pure ⟨← cellU mn.x g.min.x g.res, ← cellU mn.z g.min.z g.res, ← cellU mx.x g.min.x g.res, ← cellU mx.z g.min.z g.res⟩
 
+/-- the span a footprint is registered with: the cell of a far edge is kept inside the grid (`InsertQuad`'s append
+    loops and `mergeQuads`' `clampCell`) - float32 subtraction rounds a far edge a hair below the border onto it -/
+def Grid.spanIn (g : Grid) (q : Quad) : Option Span :=
+  (g.span q).map fun s => ⟨s.minX, s.minY, Nat.min s.maxX (g.cols - 1), Nat.min s.maxY (g.rows - 1)⟩
+
 /-- `ExpandToFitPoint` -/
 def Grid.expand (g : Grid) (p : V3) : Option Grid :=
   if p.x >= g.min.x && p.z >= g.min.z && p.x < g.max.x && p.z < g.max.z then some g else
@@ -208,7 +213,7 @@ def Grid.expand (g : Grid) (p : V3) : Option Grid :=
       let spans := g.spans.map fun s => (⟨s.minX + dx, s.minY + dy, s.maxX + dx, s.maxY + dy⟩ : Span)
       let bad := (List.range g.quads.size).countP fun i =>
         match g.quads[i]?, spans[i]? with
-        | some q, some s => g'.span q != some s
+        | some q, some s => g'.spanIn q != some s
         | _, _ => true
       some { g' with spans, spanChecks := g.spanChecks + g.quads.size, spanDrift := g.spanDrift + bad }
     | _, _ => none
@@ -217,11 +222,12 @@ def Grid.expand (g : Grid) (p : V3) : Option Grid :=
 /-- `mergeQuads(existing, new)` -/
 def Grid.mergeQuads (g : Grid) (eid : Nat) (nq : Quad) : Option Grid := do
   let eq ← g.quads[eid]?
-  let s0 ← g.span eq
+  -- `clampCell`: the cell of a far edge is kept inside the grid
+  let s0 ← g.spanIn eq
   let centerDiff := nq.center.sub eq.center
   let extentsDiff := nq.extents.sub eq.extents
   let eq' : Quad := { eq with center := eq.center.add (centerDiff.mul 0.2), extents := eq.extents.add (extentsDiff.mul 0.2) }
-  let s1 ← g.span eq'
+  let s1 ← g.spanIn eq'
   let cells ← reRegister g.cells eid s0 s1
   -- ghost: the move starts from the span the plane was registered with
   let bad := if g.spans[eid]? == some s0 then 0 else 1
@@ -261,12 +267,11 @@ def Grid.insert (g : Grid) (q : Quad) : Option Grid := do
   let g ← g.expand maxPoint
   let (g, append) ← g.mergeLoop q 64 none
   if append then
-    let s ← g.span q
+    let s' ← g.spanIn q
     let id := g.quads.size
-    let s' : Span := ⟨s.minX, s.minY, Nat.min s.maxX (g.cols - 1), Nat.min s.maxY (g.rows - 1)⟩
     let cells ← register g.cells id s'
     pure { g with cells, quads := g.quads.push q, planeCount := g.planeCount + 1, spans := g.spans.push s',
-                  spanChecks := g.spanChecks + 1, spanDrift := g.spanDrift + (if s' == s then 0 else 1) }
+                  spanChecks := g.spanChecks + 1 }
   else pure g
 
 /-- `GetRegion` (with the guard for an empty clamped box): the distinct quad ids of the covered cells -/
